@@ -1,5 +1,142 @@
+import SamVerif.Model.Fmt
 import Driver.Util
-/-! Line-protocol driver for property C08 (model side). Not implemented yet. -/
+/-! Protocol `fmt-expr` (C08), model side.
+`E <width> <hex text>`: lex the fragment text (driver-side character lexer + the model's
+`mergeMinInt`), `parseE` → T0, `printE` → token sequence, re-lex, `parseE` → T1, `RT T0`.
+`S <width> <hex text>`: a single string-literal token through `parseStr` / `printStr`.
+Answers: `<T0>;<tokens>;<T1|rerr>;rt=<0|1>` or `perr`. The width is irrelevant to the model (token level). -/
+namespace Driver.C08
+open SamVerif.Fmt Driver
+
+def ops : List (String × BinOp) :=
+  [("*", .mul), ("/", .div), ("%", .mod), ("+", .plus), ("-", .minus), ("::", .concat),
+   ("<", .lt), ("<=", .le), (">", .gt), (">=", .ge), ("==", .eq), ("!=", .ne), ("&&", .and), ("||", .or)]
+
+def opText (o : BinOp) : String := ((ops.find? (·.2 == o)).map (·.1)).getD "?"
+def opOf (s : String) : Option BinOp := (ops.find? (·.1 == s)).map (·.2)
+
+def isIdStart (c : Char) : Bool := c.isAlpha
+def isIdChar (c : Char) : Bool := c.isAlphanum
+
+/-- character-level lexer of the fragment (not part of the proved model). -/
+partial def lexWords : List Char → List String → Option (List String)
+  | [], acc => some acc.reverse
+  | c :: rest, acc =>
+    if c == ' ' || c == '\n' || c == '\t' then lexWords rest acc
+    else if c == '(' || c == ')' || c == '+' || c == '*' || c == '/' || c == '%' || c == '-' then
+      lexWords rest (c.toString :: acc)
+    else if c.isDigit then
+      let ds := (c :: rest).takeWhile Char.isDigit
+      lexWords ((c :: rest).dropWhile Char.isDigit) (String.ofList ds :: acc)
+    else if isIdStart c then
+      let ds := (c :: rest).takeWhile isIdChar
+      lexWords ((c :: rest).dropWhile isIdChar) (String.ofList ds :: acc)
+    else match c, rest with
+      | '!', '=' :: r => lexWords r ("!=" :: acc)
+      | '!', r => lexWords r ("!" :: acc)
+      | '<', '=' :: r => lexWords r ("<=" :: acc)
+      | '<', r => lexWords r ("<" :: acc)
+      | '>', '=' :: r => lexWords r (">=" :: acc)
+      | '>', r => lexWords r (">" :: acc)
+      | '=', '=' :: r => lexWords r ("==" :: acc)
+      | '&', '&' :: r => lexWords r ("&&" :: acc)
+      | '|', '|' :: r => lexWords r ("||" :: acc)
+      | ':', ':' :: r => lexWords r ("::" :: acc)
+      | _, _ => none
+
+def isNum (s : String) : Bool := !s.isEmpty && s.toList.all Char.isDigit
+
+/-- words → tokens, through the model's `mergeMinInt`; atoms are numbered by `tab`. -/
+def toToks (words : List String) : List Tok × List String :=
+  let raw : List RawTok := words.zipIdx.map fun (w, i) =>
+    if w == "-" then .minus else if isNum w then .int w.toNat! else .other i
+  let merged := mergeMinInt raw
+  merged.foldl (fun (acc : List Tok × List String) t =>
+    let (ts, tab) := acc
+    let atom (s : String) : List Tok × List String :=
+      match tab.idxOf? s with
+      | some i => (ts ++ [.atom i], tab)
+      | none => (ts ++ [.atom tab.length], tab ++ [s])
+    match t with
+    | .minus => (ts ++ [.op .minus], tab)
+    | .int n => atom (toString n)
+    | .minInt => atom "-2147483648"
+    | .other k =>
+      let w := words.getD k "?"
+      if w == "(" then (ts ++ [.lp], tab) else if w == ")" then (ts ++ [.rp], tab)
+      else if w == "!" then (ts ++ [.bang], tab)
+      else match opOf w with
+        | some o => (ts ++ [.op o], tab)
+        | none => atom w) ([], [])
+
+def tokText (tab : List String) : Tok → String
+  | .lp => "(" | .rp => ")" | .bang => "!"
+  | .op o => opText o
+  | .atom a => tab.getD a "?"
+
+partial def dump (tab : List String) : Expr → String
+  | .atom a => tab.getD a "?"
+  | .unary .not e => "(! " ++ dump tab e ++ ")"
+  | .unary .neg e => "(neg " ++ dump tab e ++ ")"
+  | .binary o l r => "(" ++ opText o ++ " " ++ dump tab l ++ " " ++ dump tab r ++ ")"
+
+def textOfHex (h : String) : String := (String.fromUTF8? (ByteArray.mk (bytesOfHex h).toArray)).getD ""
+
+/-- parse with the model's budget and with a much larger one; a difference means the budget of
+`parseE` was too small (reported as `fuel`, never observed). -/
+def parseChecked (ts : List Tok) : Except String (Option Expr) :=
+  let r1 := parseE ts
+  let r2 := parseFuel (4 * fuelFor ts) ts
+  if r1 == r2 then .ok r1 else .error "fuel"
+
+def stepE (text : String) : String :=
+  match lexWords text.toList [] with
+  | none => "perr"
+  | some words =>
+    let (ts, tab) := toToks words
+    match parseChecked ts with
+    | .error m => m
+    | .ok none => "perr"
+    | .ok (some e) =>
+      let out := printE e
+      let outText := " ".intercalate (out.map (tokText tab))
+      -- re-lex the rendered text (so that `- 2147483648` is merged again) and re-parse
+      let t1 := match lexWords outText.toList [] with
+        | none => "rerr"
+        | some w2 =>
+          let (ts2, tab2) := toToks w2
+          match parseChecked ts2 with
+          | .error m => m
+          | .ok none => "rerr"
+          | .ok (some e2) => dump tab2 e2
+      s!"{dump tab e};{outText};{t1};rt={if RT e then 1 else 0}"
+
+def hexOfString (s : String) : String := hexOfBytes s.toUTF8.toList
+
+def stepS (text : String) : String :=
+  let cs := text.trimAscii.toString.toList
+  match lexStr cs with
+  | some (content, []) =>
+    if !validEscape (('"' :: content) ++ ['"']) then "perr" else
+    let lit := unescapeQuotes content
+    let printed := printStr lit
+    let t1 := match lexStr printed with
+      | some (c2, []) =>
+        if validEscape (('"' :: c2) ++ ['"']) then s!"(s {hexOfString (String.ofList (unescapeQuotes c2))})" else "rerr"
+      | _ => "rerr"
+    s!"(s {hexOfString (String.ofList lit)});{String.ofList printed};{t1};rt={if hasEscapedQuote content then 0 else 1}"
+  | _ => "perr"
+
+def step (_ : Unit) (line : String) : Unit × String :=
+  match words line with
+  | ["E", _, h] => ((), stepE (textOfHex h))
+  | ["S", _, h] => ((), stepS (textOfHex h))
+  | _ => ((), "bad-op")
+
+def run : IO Unit := runLoop () step
+
+end Driver.C08
+
 def main (_args : List String) : IO UInt32 := do
-  IO.eprintln "drv-c08: not implemented yet"
-  return 2
+  Driver.C08.run
+  return 0
